@@ -32,7 +32,8 @@ def fresh():
 
 
 def main():
-    sel = sys.argv[1:]
+    fast = "--fast" in sys.argv
+    sel = [a for a in sys.argv[1:] if not a.startswith("--")]
     patches = []
     for d in sorted(glob.glob("/tmp/seed/C*.out")):
         pid = os.path.basename(d)[:3]
@@ -48,8 +49,13 @@ def main():
         name = "%s-%s" % (pid, k)
         fresh()
         rec = {"property": pid, "patch": pf, "demo": demo}
-        rc, out = sh("/venv/bin/python %s" % demo, cwd=WT)
-        rec["demo_clean_exit"] = rc
+        prev = results.get(name, {})
+        skip = fast and prev.get("suite_ok") and prev.get("demo_clean_exit") == 0 and prev.get("demo_changed_exit")
+        if skip:
+            rec.update({k_: prev[k_] for k_ in ("demo_clean_exit", "demo_changed_exit", "suite", "suite_ok")})
+        else:
+            rc, out = sh("/venv/bin/python %s" % demo, cwd=WT)
+            rec["demo_clean_exit"] = rc
         rc, out = sh("git apply --whitespace=nowarn %s" % pf, cwd=WT)
         if rc != 0:
             rc, out = sh("git apply --3way --whitespace=nowarn %s" % pf, cwd=WT)
@@ -59,11 +65,12 @@ def main():
             results[name] = rec
             print(name, "DOES NOT APPLY")
             continue
-        rc, out = sh("/venv/bin/python %s" % demo, cwd=WT)
-        rec["demo_changed_exit"] = rc
-        rc, out = sh("%s/tools/suite.sh %s" % (VERIF, WT))
-        rec["suite"] = out.strip().splitlines()[0] if out.strip() else ""
-        rec["suite_ok"] = rc == 0 and "45 failed, 2433 passed" in out
+        if not skip:
+            rc, out = sh("/venv/bin/python %s" % demo, cwd=WT)
+            rec["demo_changed_exit"] = rc
+            rc, out = sh("%s/tools/suite.sh %s" % (VERIF, WT))
+            rec["suite"] = out.strip().splitlines()[0] if out.strip() else ""
+            rec["suite_ok"] = rc == 0 and "45 failed, 2433 passed" in out
         fired = {}
         for i in range(1, 21):
             p = "C%02d" % i
